@@ -55,6 +55,13 @@ def execute(job):
     kw = {}
     if job["built"] == "se3":
         kw["poses_se3"] = [geom.se3(m, p) for m, p in zip(mats, poss)]
+        hand = job.get("seed", 0) % 5          # how the pose list is handed over
+        if hand == 3:
+            kw["poses_se3"] = tuple(kw["poses_se3"])
+        elif hand == 4:
+            arr = np.array(kw["poses_se3"])
+            arr.setflags(write=False)
+            kw["poses_se3"] = arr
     else:
         kw["positions_xyz"] = np.array(poss)
         kw["orientations_quat_wxyz"] = np.array(quats)
@@ -86,6 +93,11 @@ def _project_and_observe(job, t, sib, mats, stamps, plane, ax, u):
     elif job["pre"] == "all":
         _ = (t.positions_xyz, t.orientations_quat_wxyz, t.poses_se3)
     o = {"out": "ok", "n": -1, "poses": [], "stamps_same": True, "xview": False, "second": "none"}
+    if job.get("seed", 0) % 3 == 0:
+        try:
+            t.project("not a plane")            # a refused call (not a plane) leaves the object as it was
+        except Exception:  # noqa: BLE001
+            pass
     try:
         t.project(trajectory.Plane(plane))
     except Exception as e:  # noqa: BLE001
@@ -116,7 +128,8 @@ def _project_and_observe(job, t, sib, mats, stamps, plane, ax, u):
         o["n"] = -1
         o["error"] = type(e).__name__
     try:
-        t.project(trajectory.Plane(plane))
+        other = {"xy": "xz", "xz": "yz", "yz": "xy"}[plane]
+        t.project(trajectory.Plane(other if job.get("seed", 0) % 2 else plane))       # the same plane again, or another one
         o["second"] = "ok"
     except Exception as e:  # noqa: BLE001
         o["second"] = type(e).__name__
